@@ -124,6 +124,7 @@ type universe struct {
 	depth     int
 	directSet bool // BlockCache.Set called directly (not through a transaction cache)
 	lateHash  bool // block caches are created under a provisional hash; SetBlockHash gives the real one right before Commit (block generators)
+	freshTxn  bool // "a new transaction cache is opened for slot (b,t)" is an event: handles created AFTER others have committed; the old handle of the slot is abandoned with whatever it had pending
 	scRemove  bool // StateCache.Remove(key) is an event (drops the key's whole per-block map; only soundness can be demanded afterwards)
 	// C07 switches
 	mutateValues bool
@@ -150,6 +151,8 @@ func (e event) String() string {
 		return fmt.Sprintf("%s.BlockCache.Set(%s)", bname(e.B), e.Key)
 	case 'X':
 		return fmt.Sprintf("StateCache.Remove(%s)", e.Key)
+	case 'n':
+		return fmt.Sprintf("%s.txn%d = NewTransactionCache", bname(e.B), e.T)
 	case 'C':
 		return fmt.Sprintf("%s.Commit", bname(e.B))
 	case 'g':
@@ -175,6 +178,9 @@ func (u universe) events() []event {
 				evs = append(evs, event{K: 's', B: b, T: t, Key: k}, event{K: 'r', B: b, T: t, Key: k}, event{K: 't', B: b, T: t, Key: k})
 			}
 			evs = append(evs, event{K: 'c', B: b, T: t})
+			if u.freshTxn {
+				evs = append(evs, event{K: 'n', B: b, T: t})
+			}
 		}
 		evs = append(evs, event{K: 'C', B: b})
 		for _, k := range u.keys {
@@ -327,6 +333,9 @@ func (w *world) apply(e event) (fail string) {
 		for k, v := range w.ov[e.B][e.T] {
 			w.pend[e.B][k] = v
 		}
+		w.ov[e.B][e.T] = map[string]ent{}
+	case 'n':
+		w.tcs[e.B][e.T] = statecache.NewTransactionCache(w.bcs[e.B])
 		w.ov[e.B][e.T] = map[string]ent{}
 	case 'X':
 		w.sc.Remove(e.Key)
